@@ -49,10 +49,14 @@ CLAIMED = {
                 text="Seeded search: the same operation history (len, field access, slice/mask/integer-list/single index, concatenate, replace, tolist, write; <= 12 ops, whole or chunked origin) is run in lock-step on the lazily and the eagerly read twin of a canonical generated file; every step must give equal values / equal written bytes or fail in both, and every variable is observed (len, all fields, written bytes) in both worlds at the end.",
                 note="Canonical sources only (LF, repr floats, no '.' placeholders, no extra columns) so that C04's intended lazy/eager difference cannot appear; exceptions compare as raised / not raised.",
                 tech=TECH + "lock-step twin execution of operation histories on lazy vs eager tables (step-wise equality oracle)"),
+    "C20": dict(engine="lazysim", cat="exploration", ref="§4 C20",
+                text="Seeded search over operation histories on file chunks (lazy and eager, whole or chunked origin, non-canonical text: signs, scientific floats, list-valued and genotype/extra columns): every operation is bracketed — the operands' observable state (length, every field value, the bytes the chunk would write) from a fresh replay of the history prefix must equal their state after the operation, and applying the operation twice must give equal results. An API actor additionally calls registry functions (str_to_int/str_to_float, sort/merge intervals, mask, pileup, reverse complement, k-mers, change_encoding, tolist) on live objects of the run under an argument snapshot.",
+                note="File-chunk clause decided by search; the registry clause is a monitor on sampled live objects, not a search over the registry's input space (stated in the evidence assumptions).",
+                tech=TECH + "snapshot bracket via fresh prefix replay around every operation of a simulated history + API actor on live objects"),
 }
 
 _P = "check designed in DESIGN.md (simulated) but not built yet at this commit; not claimed until its check exists"
-PENDING = {k: _P for k in ["C20"]}
+PENDING = {}
 
 NOT_APPLICABLE = {
     "C06": "pure function of (byte, alphabet): no storage, stream, history or shared state, so no scheduler or fault decision can change the outcome (DESIGN §4 C06)",
